@@ -25,6 +25,8 @@ const basePreamble = `(set-option :produce-models true)
 (assert (forall ((s Slice) (i Int)) (! (= (sidx s i) (idx (sarr s) (+ (soff s) i))) :pattern ((sidx s i)))))
 (declare-sort Str 0)
 (declare-fun strlen (Str) Int)
+(declare-fun strcat (Str Str) Str)
+(assert (forall ((a Str) (b Str)) (! (= (strlen (strcat a b)) (+ (strlen a) (strlen b))) :pattern ((strcat a b)))))
 (assert (forall ((s Str)) (! (and (>= (strlen s) 0) (<= (strlen s) 9223372036854775807)) :pattern ((strlen s)))))
 (declare-const emptystr Str)
 (assert (= (strlen emptystr) 0))
